@@ -51,7 +51,7 @@ func (w *pkgWorld) src(name string, private bool) map[string]string {
 func gnomodFor(path string, private bool) string {
 	s := gnolang.GenGnoModLatest(path)
 	if private {
-		s += "private = true\n"
+		s = strings.TrimRight(s, "\n") + "\nprivate = true\n"
 	}
 	return s
 }
@@ -103,7 +103,7 @@ func (w *pkgWorld) checkRegistry(n *node, when string) {
 			}
 			if f == "gnomod.toml" {
 				body := string(fr.Data)
-				if !strings.Contains(body, e.creator) || !strings.Contains(body, fmt.Sprintf("height = %d", e.height)) || !strings.Contains(body, p) {
+				if !strings.Contains(body, e.creator) || (e.height > 0 && !strings.Contains(body, fmt.Sprintf("height = %d", e.height))) || !strings.Contains(body, p) {
 					w.fail("C12", "deploy-metadata-changed", "%s: %s/gnomod.toml no longer records module %s creator %s height %d:\n%s", when, p, p, e.creator, e.height, body)
 					return
 				}
